@@ -14,17 +14,29 @@ import (
 type Expr interface{ String() string }
 
 type (
-	EIdent  struct{ Name string }
-	EInt    struct{ V string }
-	EStr    struct{ V string }
-	ESel    struct{ X Expr; F string }
-	EIndex  struct{ X, I Expr }
-	ESlice  struct{ X, Lo, Hi Expr }
-	ECall   struct{ Fn string; Args []Expr }
-	EUnary  struct{ Op string; X Expr }
-	EBinary struct{ Op string; L, R Expr }
-	ECond   struct{ C, A, B Expr }
-	EQuant  struct {
+	EIdent struct{ Name string }
+	EInt   struct{ V string }
+	EStr   struct{ V string }
+	ESel   struct {
+		X Expr
+		F string
+	}
+	EIndex struct{ X, I Expr }
+	ESlice struct{ X, Lo, Hi Expr }
+	ECall  struct {
+		Fn   string
+		Args []Expr
+	}
+	EUnary struct {
+		Op string
+		X  Expr
+	}
+	EBinary struct {
+		Op   string
+		L, R Expr
+	}
+	ECond  struct{ C, A, B Expr }
+	EQuant struct {
 		Forall bool
 		Vars   []QVar
 		Body   Expr
@@ -406,21 +418,23 @@ func (p *sparser) primary() Expr {
 // ---------- contract blocks ----------
 
 type Clause struct {
-	Kind string   // requires ensures assigns decreases loopinv loopassigns loopunroll panicsif
-	Tags []string // property ids
-	Loop int
-	Text string
-	E    Expr   // for requires/ensures/loopinv/panicsif/decreases
-	Locs []Expr // for assigns
-	Site int    // before/after clauses: call-site ordinal (-1: every site)
+	Kind                string   // requires ensures assigns decreases loopinv loopassigns loopunroll panicsif
+	Tags                []string // property ids
+	Loop                int
+	Text                string
+	E                   Expr   // for requires/ensures/loopinv/panicsif/decreases
+	Locs                []Expr // for assigns
+	Site                int    // before/after clauses: call-site ordinal (-1: every site)
 	IfLocal, IfNotLocal string // before clauses: applies only where this local is (is not) defined
-	Line int
-	File string
-	Callee string // aftercall: callee name (suffix match)
-	With   string // aftercall: closure argument name
+	Line                int
+	File                string
+	Callee              string // aftercall: callee name (suffix match)
+	With                string // aftercall: closure argument name
 }
 
-func (c *Clause) Hash() string { return shortHash(c.Kind + "|" + fmt.Sprint(c.Loop) + "|" + normSpace(c.Text)) }
+func (c *Clause) Hash() string {
+	return shortHash(c.Kind + "|" + fmt.Sprint(c.Loop) + "|" + normSpace(c.Text))
+}
 
 type Contract struct {
 	Pkg      string // package path the block lives in (scope for names)
@@ -449,12 +463,24 @@ type Pred struct {
 	Params []QVar
 	Body   Expr
 }
+
 // LocMacro: a named list of locations, "locs name(params) = loc, loc, ..." usable in assigns clauses.
 type LocMacro struct {
 	Pkg    string
 	Name   string
 	Params []QVar
 	Locs   []Expr
+}
+
+// Sweep: a schematic contract, "sweep[tags] assigns nothing: T1, T2, func f, *": every function of the
+// package with one of the listed receiver types (or names; * = all) that has no contract of its own
+// gets the contract "assigns nothing"; explicit contracts that already say "assigns nothing" get the tags.
+type Sweep struct {
+	Pkg   string
+	Tags  []string
+	Names map[string]bool
+	File  string
+	Line  int
 }
 type Axiom struct {
 	Pkg   string
@@ -479,6 +505,7 @@ type SpecDB struct {
 	Pures      map[string]*PureFunc // key name (global namespace)
 	Preds      map[string]*Pred
 	LocMacros  map[string]*LocMacro
+	Sweeps     []*Sweep
 	Axioms     []*Axiom
 	Ghosts     map[string]*GhostField // key "Type.name" (Type qualified pkgpath.Type)
 	Sorts      map[string]bool
@@ -564,13 +591,13 @@ func (db *SpecDB) ParseSpecFile(path, pkgPath string, trusted bool) error {
 		word, rest := splitWord(l)
 		isHeader := false
 		switch word {
-		case "package", "func", "interface", "functype", "pure", "pred", "locs", "axiom", "lemma", "ghost", "sort", "constglobal", "sentinel",
+		case "package", "func", "interface", "functype", "pure", "pred", "locs", "sweep", "axiom", "lemma", "ghost", "sort", "constglobal", "sentinel",
 			"requires", "ensures", "assigns", "decreases", "loop", "after", "before", "returns", "inline", "abstracted", "bitprecise", "nooverflow", "panics-if", "trusted", "noalloc", "prune", "maxpaths", "timeout", "noinline", "nosafety":
 			isHeader = true
 		}
 		if !isHeader || strings.HasPrefix(word, "requires[") {
 			// continuation or tagged clause
-			if strings.HasPrefix(word, "requires[") || strings.HasPrefix(word, "ensures[") {
+			if strings.HasPrefix(word, "requires[") || strings.HasPrefix(word, "ensures[") || strings.HasPrefix(word, "sweep[") || strings.HasPrefix(word, "assigns[") {
 				isHeader = true
 			}
 		}
@@ -621,11 +648,11 @@ func (db *SpecDB) ParseSpecFile(path, pkgPath string, trusted bool) error {
 			// "interface datamodel.Node.Kind() (k)" : one block per method
 			cur = &Contract{Pkg: pkgPath, Kind: "iface", Flags: map[string]bool{}, FlagArgs: map[string]string{}, File: path, Line: ln + 1, Trusted: true}
 			parseFuncHeader(cur, rest)
-			db.IfaceMeths[cur.Name] = cur
+			db.IfaceMeths[pkgPath+"|"+cur.Name] = cur // package-qualified until canonicalised (two packages may both have a "Type.Name")
 		case "functype":
 			cur = &Contract{Pkg: pkgPath, Kind: "functype", Flags: map[string]bool{}, FlagArgs: map[string]string{}, File: path, Line: ln + 1, Trusted: true}
 			parseFuncHeader(cur, rest)
-			db.FuncTypes[cur.Name] = cur
+			db.FuncTypes[pkgPath+"|"+cur.Name] = cur
 		case "pure":
 			// pure func name(a T, b U) R [= expr]
 			w2, r2 := splitWord(rest)
@@ -655,6 +682,34 @@ func (db *SpecDB) ParseSpecFile(path, pkgPath string, trusted bool) error {
 					return fmt.Errorf("%s:%d: %v", path, ln+1, err)
 				}
 				db.Preds[pf.Name] = &Pred{Pkg: pk, Name: pf.Name, Params: pf.Params, Body: pf.Body}
+				return nil
+			}
+			cur = nil
+		case "sweep":
+			t := rest
+			pendingText = &t
+			pk := pkgPath
+			tags := []string{}
+			if i := strings.Index(word, "["); i >= 0 && strings.HasSuffix(word, "]") {
+				tags = strings.Split(word[i+1:len(word)-1], ",")
+			}
+			lineNo := ln + 1
+			pendingFinish = func(txt string) error {
+				i := strings.Index(txt, ":")
+				if i < 0 || normSpace(txt[:i]) != "assigns nothing" {
+					return fmt.Errorf("%s:%d: sweep[tags] assigns nothing: names", path, lineNo)
+				}
+				sw := &Sweep{Pkg: pk, Tags: tags, Names: map[string]bool{}, File: path, Line: lineNo}
+				for _, n := range strings.Split(txt[i+1:], ",") {
+					if n = normSpace(n); n != "" {
+						// a package-level function is written "f()" (or "func f")
+						if strings.HasSuffix(n, "()") {
+							n = "func " + strings.TrimSuffix(n, "()")
+						}
+						sw.Names[n] = true
+					}
+				}
+				db.Sweeps = append(db.Sweeps, sw)
 				return nil
 			}
 			cur = nil
@@ -724,7 +779,7 @@ func (db *SpecDB) ParseSpecFile(path, pkgPath string, trusted bool) error {
 			if cur == nil {
 				return fmt.Errorf("%s:%d: clause outside block", path, ln+1)
 			}
-			lastClause = &Clause{Kind: "assigns", Text: rest, Line: ln + 1, File: path}
+			lastClause = &Clause{Kind: "assigns", Text: rest, Line: ln + 1, File: path, Tags: tags}
 			cur.Clauses = append(cur.Clauses, lastClause)
 		case "loop":
 			if cur == nil {
